@@ -7,26 +7,32 @@ Local Open Scope string_scope.
 Local Open Scope list_scope.
 Local Open Scope nat_scope.
 
-(* 1. FULL statement "every non-overridden component, the discount rate and the state and
-      action lists of augment(mdp, ...) equal the base MDP's": REFUTED for augment as
-      option.py writes it (witness: discount_rate 1/2 in the instance dict, class default 1). *)
-Theorem augment_preserves_discount_refuted :
-  ~ (forall o ov o', augment o ov = Some o' ->
-     forall k, In k (components ++ ["discount_rate"] ++ (if is_tabular o then tab_components else [])) ->
-               assoc k ov = None -> getattr o' k = getattr o k).
-Proof. exact OptionTheory.augment_preserves_discount_refuted. Qed.
-Print Assumptions augment_preserves_discount_refuted.
+(* 1. FULL statement: every non-overridden component, the discount rate and (tabular MDPs)
+      the state and action lists of augment(mdp, ...) equal the base MDP's - for ALL objects
+      (whatever holds the attributes: instance dict, class, base class) and ALL override sets.
+      Holds for augment as option.py writes it since /repo commit 29c9a36. *)
+Theorem augment_preserves :
+  forall o ov o', augment o ov = Some o' ->
+  forall k, In k (components ++ ["discount_rate"] ++ (if is_tabular o then tab_components else [])) ->
+            assoc k ov = None -> getattr o' k = getattr o k.
+Proof. exact OptionTheory.augment_preserves. Qed.
+Print Assumptions augment_preserves.
 
-Theorem augment_preserves_discount_refuted_witness :
+(* HISTORICAL: the variant before that commit (nothing but components and lists copied,
+   augment_gen []) lost an instance-level discount_rate: witness 1/2 on the instance, class
+   default 1.  This is what C15:augment:instance-level-discount_rate-lost reports. *)
+Theorem augment_old_variant_loses_discount :
   exists o ov o' k,
-    augment o ov = Some o' /\ In k (preserved_keys o) /\ assoc k ov = None /\
+    augment_gen [] o ov = Some o' /\ In k (preserved_keys o) /\ assoc k ov = None /\
     getattr o k = Some (VNum (1 # 2)%Q) /\ getattr o' k = Some (VNum 1%Q) /\
     getattr o' k <> getattr o k.
-Proof. exact OptionTheory.augment_preserves_discount_refuted_witness. Qed.
-Print Assumptions augment_preserves_discount_refuted_witness.
+Proof. exact OptionTheory.augment_old_variant_loses_discount. Qed.
+Print Assumptions augment_old_variant_loses_discount.
 
-(* 2. What holds today, for ALL objects and override sets. *)
-Theorem augment_preserves_partial : forall o ov o',
+(* 2. The attribute-lookup picture behind it, for ALL objects and override sets: copied keys are
+      preserved / overridden; any other attribute is looked up on the class chain with an empty
+      instance dict (plain class-level attributes survive, instance-level ones do not). *)
+Theorem augment_attribute_lookup : forall o ov o',
   augment o ov = Some o' ->
   (forall k, In k components \/ (is_tabular o = true /\ In k tab_components) ->
              assoc k ov = None -> getattr o' k = getattr o k) /\
@@ -38,10 +44,10 @@ Theorem augment_preserves_partial : forall o ov o',
   (forall k v, ~ In k (copied_keys copied_plain o) -> mro_lookup k (mro o) = Some (CVal v) ->
              getattr o' k = Some v).
 Proof. exact OptionTheory.augment_preserves_partial. Qed.
-Print Assumptions augment_preserves_partial.
+Print Assumptions augment_attribute_lookup.
 
-(* 3. The full statement holds for every variant of augment that also copies discount_rate
-      (what a fix of option.py would be: model/Option.v copied_plain := ["discount_rate"]). *)
+(* 3. More generally the full statement holds for every variant of augment that copies
+      discount_rate (whatever else it copies). *)
 Theorem augment_preserves_if_discount_copied : forall extra, In "discount_rate" extra ->
   forall o ov o', augment_gen extra o ov = Some o' ->
   forall k, In k (components ++ ["discount_rate"] ++ (if is_tabular o then tab_components else [])) ->
